@@ -385,6 +385,10 @@ def check_C10(ctx):
     # request outlives the call, every handle closed exactly once
     req = vt.tlc_generate(ctx, 'GenRun', 'C15', 0)
     scen += [x for x in req if '/cancel/' in x['id'] or '/many/' in x['id']] + [x for x in req if '/cancel/' not in x['id'] and '/many/' not in x['id'] and '/http/' not in x['id'] and x.get('faults')][ctx.seed % 7::7 if ctx.quick() else 1]
+    # ... and the TCP method policy's fault cases (a failing capture handle during the SACK attempt is not "SACK unavailable"), and the
+    # rejected TCP-over-IPv6 requests (handles opened before the rejection are closed)
+    scen += [x for x in vt.tlc_generate(ctx, 'GenRun', 'C20', 0) if x.get('faults')]
+    scen += [x for x in vt.tlc_generate(ctx, 'GenRun', 'C19', 0) if x['run']['protocol'] == 'tcp' and ':' in x['run']['hostname'] and x['run'].get('via', 'lib') == 'lib'][:12]
     wire_family(ctx, 'C10', scen, rule, nontrivial=lambda s, es: any(e['event'] == 'Fault' for e in es))
     ctx.extra['rule'] = rule + '; plus ' + (WIRE_RULE % 'C10All (the k-th call of every Source/Sink operation and constructor x error class, on every protocol entry point)') + '; non-trivial = the fault fired'
     vt.write_evidence(ctx, 'model_checking', ctx_rule(ctx), exhaustive=True)
